@@ -357,6 +357,14 @@ RULESETS = {
     "pade": PADE,
     "padeb": PADE_B,
     "expm_tail": EXPM_TAIL,
+    "squids_ini": [
+        Rule("ini.system", r'\bsystem\.reset\s*\(\s*new\s+double\s*\[\s*(\w+)\s*\]\s*\)\s*;', r'system=op_new_system(\1);', min=1),
+        Rule("ini.x", r'(?<![\w.>])x\.resize\s*\(\s*(\w+)\s*\)\s*;', r'op_x_resize(self,\1);', min=1),
+        Rule("ini.states", r'\b(state|estate|dstate)\.reset\s*\(\s*new\s+SU_state\s*\[\s*(\w+)\s*\]\s*\)\s*;', r'\1=op_new_states(ID_\1,\2);', min=3),
+        Rule("ini.rhos", r'\b(state|estate|dstate)\[ei\]\.rho\.reset\s*\(\s*new\s+SU_vector\s*\[\s*(\w+)\s*\]\s*\)\s*;', r'\1[ei].rho=op_new_rhos(ID_\1,ei,\2);', min=3),
+        Rule("ini.view", r'\b((?:state|estate|dstate)\[ei\]\.rho\[i\])\s*=\s*SU_vector\s*\(\s*(\w+)\s*,\s*(NULL|&\s*\(\s*system\[[^\]]*\]\s*\))\s*\)\s*;',
+             r'op_assign_ext(&\1,\2,\3);', min=3),
+    ],
     "squids_move": [
         Rule("move.take", r'std::move\s*\(\s*other\.(\w+)\s*\)', r'sq_take(&other->\1)'),
         Rule("move.other", r'(?<![\w.>])other\s*\.\s*', 'other->'),
